@@ -47,33 +47,34 @@ type AtSpec struct {
 }
 
 type Contract struct {
-	Sel        string
-	File       string
-	Line       int
-	Requires   []Clause
-	Assumes    []Clause // input well-formedness assumed at entry, not demanded of callers
-	Ensures    []Clause
-	Panics     []string
-	Recovers   []string
-	HasPanics  bool
-	Assigns    []string
-	HasAssign  bool
-	Loops      map[int]*LoopSpec
-	Ghosts     []GhostDecl
-	Ats        []AtSpec
-	Pure       bool
-	Trusted    bool
-	Inline     bool
-	Overflow   bool
-	Fresh      bool // result is freshly allocated
-	Props      []string
-	Expect     string   // expected signature string (pin for ordinal-keyed closures)
-	Names      []string // parameter names override (external functions)
-	Reads      bool     // pure function may read the heap (re-evaluated per state)
-	Unverified bool     // in-repo contract whose body is not (yet) verified: an assumption
-	Implements []string // function-type contracts this function must also satisfy
-	NoCapture  bool     // never writes a captured variable or a package-level variable
-	External   bool
+	Sel         string
+	File        string
+	Line        int
+	Requires    []Clause
+	Assumes     []Clause // input well-formedness assumed at entry, not demanded of callers
+	Ensures     []Clause
+	Panics      []string
+	Recovers    []string
+	HasPanics   bool
+	AssumesImpl string // stated reason why effects beyond the implemented interface method are tolerated (listed in evidence)
+	Assigns     []string
+	HasAssign   bool
+	Loops       map[int]*LoopSpec
+	Ghosts      []GhostDecl
+	Ats         []AtSpec
+	Pure        bool
+	Trusted     bool
+	Inline      bool
+	Overflow    bool
+	Fresh       bool // result is freshly allocated
+	Props       []string
+	Expect      string   // expected signature string (pin for ordinal-keyed closures)
+	Names       []string // parameter names override (external functions)
+	Reads       bool     // pure function may read the heap (re-evaluated per state)
+	Unverified  bool     // in-repo contract whose body is not (yet) verified: an assumption
+	Implements  []string // function-type contracts this function must also satisfy
+	NoCapture   bool     // never writes a captured variable or a package-level variable
+	External    bool
 }
 
 type IfaceMethod struct {
@@ -231,6 +232,8 @@ func (w *World) parseContractFile(path string) error {
 					cur.Recovers = append(cur.Recovers, p)
 				}
 			}
+		case "assumes-impl":
+			cur.AssumesImpl = rest
 		case "panics":
 			cur.HasPanics = true
 			for _, p := range strings.Split(rest, ",") {
